@@ -2155,7 +2155,10 @@ func (cs Conditions) inlineTagFilter(tags map[string]TagDetails) ConditionsSet {
 		}
 		origLen := len(csNew)
 		for range tagConditionsSet {
-			csNew = append(csNew, csNew[:origLen]...)
+			for _, c := range csNew[:origLen] {
+				// copy, the conditions are extended independently below
+				csNew = append(csNew, append(Conditions(nil), c...))
+			}
 		}
 		a := c.Accept & certain
 		for i := range csNew {
